@@ -41,6 +41,10 @@ THEOREMS = [
     "Verif.C09.ols_invariant",
     "Verif.C09.weighted_mean_def",
     "Verif.C09.weighted_identical",
+    "Verif.C09.ensemble_identical_msd",
+    "Verif.C09.ensemble_identical_cve",
+    "Verif.C09.ols_scale",
+    "Verif.C09.ols_time_scale",
 ]
 TOL = 1e-9
 VARIANTS = ("base", "translate", "mirror", "shift", "scale", "time")
@@ -1147,7 +1151,7 @@ def cases(tier, rng):
     yield from malformed(rng.fork("c09-malformed"), 40 if quick else 600)
     yield from small_scope(quick)
     r = rng.fork("c09-tracks")
-    for i in range(260 if quick else 4000):
+    for i in range(260 if quick else 3500):
         sub = r.fork(i)
         big = (not quick) and i % 250 == 0
         c = gen_track_case(sub, 60 if not big else 500)
